@@ -78,9 +78,21 @@ ANCHORS = [
     "gemseo.algos.sequence_transformer.acceleration.alternate_2_delta:Alternate2Delta._compute_transformed_iterate",
     "gemseo.algos.sequence_transformer.acceleration.alternate_delta_square:AlternateDeltaSquared._compute_transformed_iterate",
 ]
+_MIN_QUICK = {
+    "executions_judged": 1800, "fixed_point_oracle_evaluations": 12000, "exact_solution_oracle_evaluations": 12000,
+    "claims_convergence": 1700, "systems": 110, "directed_cases": 200,
+    "cases_with_couplings_listed_against_the_flow": 500, "cases_with_weakly_coupled_disciplines": 700,
+    "cases_with_several_sccs": 150, "cases_with_self_coupling": 350, "cases_with_acceleration": 400,
+    "cases_with_relaxation": 350, "cases_with_explicit_scaling": 650, "cases_with_permuted_list": 900,
+    "warm_start_second_executions": 250, "plain_second_executions": 180, "small_scale_cases": 250,
+    "twin_discipline_reexecutions": 3000, "expected_refusals": 40,
+    "cases:MDAChain": 500, "cases:MDAGSNewton": 70, "cases:MDAGaussSeidel": 250, "cases:MDAJacobi": 250,
+    "cases:MDANewtonRaphson": 100, "cases:MDAQuasiNewton": 60, "cases:MDASequential": 120,
+}
 MIN_COUNTERS = {
-    "quick": {},
-    "thorough": {},
+    "quick": dict(_MIN_QUICK),
+    # the thorough tier runs ~30 times the generated cases of the quick tier (directed cases once)
+    "thorough": {k: (v if k == "directed_cases" else 12 * v) for k, v in _MIN_QUICK.items()},
 }
 SHARD_TIMEOUT = {"quick": 400, "thorough": 2400}
 
@@ -90,6 +102,7 @@ EPS = np.finfo(float).eps
 KNOWN_GS = "C06:MDAGaussSeidel:weak-couplings-listed-out-of-order"
 SIG_EMPTY = "C06:MDAGaussSeidel:no-strong-coupling:empty-residual-vector:scaling-exception"
 SIG_SEQ_NORM = "C06:MDASequential:sub-MDA-without-residual-norm-output:InvalidDataError"
+SIG_QN_TRIAL = "C06:MDAQuasiNewton:non-coupling-outputs-from-last-trial-point"
 
 ACCELERATIONS = ["NoTransformation", "Aitken", "Alternate2Delta", "AlternateDeltaSquared", "MinimumPolynomial", "Secant"]
 SCALINGS = ["no_scaling", "initial_residual_norm", "initial_subresidual_norm", "n_coupling_variables",
@@ -513,7 +526,7 @@ def run_case(case, rep, *, quiet=False, count=True):
                 clause = "bounded-progress:" + clause
             sig = None
             if not quiet:
-                sig = classify_gs(case, system, rep)
+                sig = classify_gs(case, system, rep) or classify_qn(case, system, rep, failures)
             sig = sig or f"C06:{label}:{clause}:{feat}" + (":second-execution" if k == 1 else "")
             rep.violation(sig, clause, case,
                           observed={"variable": nm, "value": obs, "returned": out.get(nm), "claims_convergence": claims,
@@ -623,6 +636,43 @@ def classify_exception(case, system, exc):
             and isinstance(exc, (ValueError, ZeroDivisionError))
             and ("iterable argument is empty" in msg or "zero-size array" in msg or "division by zero" in msg)):
         return SIG_EMPTY
+    return None
+
+
+def _qn_settings(cfg):
+    """The settings dicts of the quasi-Newton solvers of ``cfg`` (references, so that a twin can edit them)."""
+    out = []
+    if cfg["cls"] == "MDAQuasiNewton":
+        out.append(cfg["settings"])
+    if cfg["cls"] == "MDAChain" and cfg["settings"].get("inner_mda_name") == "MDAQuasiNewton":
+        out.append(cfg["settings"].setdefault("inner_mda_settings", {}))
+    for s_ in cfg.get("seq", []):
+        if s_["cls"] == "MDAQuasiNewton":
+            out.append(s_["settings"])
+    return out
+
+
+def classify_qn(case, system, rep, failures):
+    """Narrow classifier: MDAQuasiNewton returns the couplings of SciPy's solution but the other outputs of the last
+    point SciPy evaluated (for lm/hybr without analytic Jacobian: a finite-difference perturbation of the solution).
+
+    Given only when (a) a quasi-Newton solver with method lm or hybr and ``use_gradient=False`` is involved,
+    (b) every failing clause concerns a non-coupling output and (c) the same case passes with ``use_gradient=True``
+    (no finite-difference evaluations)."""
+    sts = [st for st in _qn_settings(case["cfg"])
+           if st.get("method", "hybr") in ("lm", "hybr") and not st.get("use_gradient", False)]
+    if not sts or any(nm in system.couplings for _, nm, _, _ in failures):
+        return None
+    twin = copy.deepcopy(case)
+    twin["twin"] = False
+    for st in _qn_settings(twin["cfg"]):
+        if st.get("method", "hybr") in ("lm", "hybr"):
+            st["use_gradient"] = True
+    scratch = Reporter(PID)
+    res = run_case(twin, scratch, quiet=True, count=False)
+    rep.count("qn_defect_classifier_reruns")
+    if res == "ok" and not scratch.violations:
+        return SIG_QN_TRIAL
     return None
 
 
@@ -922,6 +972,25 @@ def directed_cases():
             c["scaling"] = scaling
             add(twoc, [0, 1, 2, 3], c, tol=1e-8, start="close", defaults=close)
             add(twoc, [1, 3, 0, 2], copy.deepcopy(c))
+    # (g) Gauss-Seidel on the cycle-free chain listed along the flow, with every residual scaling (empty residual)
+    for scaling in SCALINGS:
+        add(chain, [0, 1, 2, 3], {"cls": "MDAGaussSeidel", "settings": {}, "scaling": scaling})
+        add(chain, [0, 1, 2, 3], {"cls": "MDAJacobi", "settings": {"n_processes": 1}, "scaling": scaling})
+    # (h) MDASequential ending with each quasi-Newton method (only broyden1/2 output the residual norm)
+    for meth in QN_METHODS[:7]:
+        add(twoc, [0, 1, 2, 3], {"cls": "MDASequential", "settings": {}, "seq": [
+            {"cls": "MDAJacobi", "settings": {"max_mda_iter": 2, "n_processes": 1}},
+            {"cls": "MDAQuasiNewton", "settings": {"n_processes": 1, "method": meth}}]})
+    # (i) quasi-Newton with a finite-difference Jacobian at a tight tolerance on small linear systems (SciPy's lm ends
+    # on a Jacobian evaluation when the residual is exactly zero); use_gradient=True is the control
+    for seed in (1003, 1009, 1014):
+        rng = np.random.default_rng(seed)
+        spec = cs.extra_system(rng, kind="self_tail", n=2, nonlinear=False, L=0.8)
+        inputs = {k: v.tolist() for k, v in gs.CoupledSystem(spec).default_inputs(rng).items()}
+        for meth, grad in (("lm", False), ("lm", True), ("hybr", False)):
+            ist = {"n_processes": 1, "method": meth, "use_gradient": grad}
+            add(spec, [0, 1], {"cls": "MDAChain", "settings": {"inner_mda_name": "MDAQuasiNewton", "n_processes": 1,
+                                                              "inner_mda_settings": ist}}, tol=1e-12, inputs=inputs)
     # (f) acceleration x relaxation on the fixed-point solvers, executed twice on the same instance
     x2 = {"x": [1.45]}
     for acc in ACCELERATIONS:
